@@ -278,12 +278,123 @@ def handleAlias (j : Json) : Except String Json := do
              ("heldAfter2", ofNatListJson (held.map (fun a => r2.1.getD a 0))),
              ("noWriter", Json.bool (stages.all (fun s => !s.writesInput)))])
 
+
+/-! ### Phase 4: fitting-window stages on content, general aliasing stages -/
+
+/-- stand-in for `statistics.stdev` (the theorems are generic in `sd`): sample standard deviation, root to 20 decimals -/
+def sdApprox (xs : List Rat) : Rat :=
+  let v : Rat := C11.variance xs
+  if xs.length < 2 ∨ v ≤ 0 then 0
+  else
+    let scaled : Nat := (v.num.toNat * 10 ^ 40) / v.den
+    ((Nat.sqrt scaled : Nat) : Rat) / ((10 ^ 20 : Nat) : Rat)
+
+def c11ValOfJson (j : Json) : Except String C11.Val := do
+  if j.isNull then pure .nil
+  else match j with
+    | .str "nan" => pure .nan
+    | .arr _ => pure (.num (← ratOfJson j))
+    | _ => pure (.str (← str (← field j "s")))
+
+def c11ValToJson : C11.Val → Json
+  | .nil => Json.null
+  | .nan => Json.str "nan"
+  | .num q => ratToJson q
+  | .str s => obj [("s", Json.str s)]
+
+def c11CtxsOfJson (kind : String) (j : Json) : Except String C11.Ctxs := do
+  let rows ← arr j
+  match kind with
+  | "dense" => pure (.dense (← rows.mapM (fun r => do (← arr r).mapM c11ValOfJson)))
+  | "sparse" => pure (.sparse (← rows.mapM (fun r => do (← arr r).mapM (fun kv => do
+      match (← arr kv) with
+      | [k, v] => pure ((← str k), (← c11ValOfJson v))
+      | _ => throw "pair expected"))))
+  | "scalar" => pure (.scalar (← rows.mapM c11ValOfJson))
+  | _ => throw s!"unknown kind {kind}"
+
+def c11CtxsToJson : C11.Ctxs → Json
+  | .dense rows => obj [("kind", Json.str "dense"), ("rows", ofList (ofList c11ValToJson) rows)]
+  | .sparse rows => obj [("kind", Json.str "sparse"),
+      ("rows", ofList (ofList (fun (kv : String × C11.Val) => Json.arr #[Json.str kv.1, c11ValToJson kv.2])) rows)]
+  | .scalar rows => obj [("kind", Json.str "scalar"), ("rows", ofList c11ValToJson rows)]
+
+def parseFitStage (j : Json) : Except String FitStage := do
+  let u ← opt nat (fieldD j "using" Json.null)
+  match (← str (← field j "k")) with
+  | "scale" =>
+    let sh : C11.Shift ← (match (← field j "shift") with
+      | .str "min" => pure .min | .str "mean" => pure .mean | .str "med" => pure .median | .str "median" => pure .median
+      | .str x => throw s!"unknown shift {x}"
+      | q => do pure (.num (← ratOfJson q)))
+    let sc : C11.Scl ← (match (← field j "scale") with
+      | .str "minmax" => pure .minmax | .str "std" => pure .std | .str "iqr" => pure .iqr | .str "maxabs" => pure .maxabs
+      | .str x => throw s!"unknown scale {x}"
+      | q => do pure (.num (← ratOfJson q)))
+    pure (.scale ⟨⟨sh, sc, u⟩, (← str (fieldD j "target" (Json.str "context")))⟩)
+  | "impute" =>
+    let st : C11.Stat ← (match (← str (← field j "stat")) with
+      | "mean" => pure .mean | "median" => pure .median | "mode" => pure .mode | x => throw s!"unknown stat {x}")
+    pure (.impute st (← bool (← field j "ind")) u)
+  | x => throw s!"unknown fit stage {x}"
+
+def parseDemand (j : Json) : Except String Demand := do
+  if j.isNull then pure .none
+  else match j with
+    | .str _ => pure .all
+    | _ => pure (.pull (← nat j))
+
+/-- {"fit":{"kind","rows","stages":[…],"reads":[null | k | "all"]}}: every read of the pipeline of fitting-window stages, as
+the model delivers it (a fresh upstream iterator per read), and what a stage keeping its iterator would deliver (one stage only) -/
+def handleFit (j : Json) : Except String Json := do
+  let c ← c11CtxsOfJson (← str (← field j "kind")) (← field j "rows")
+  let stages ← (← arr (← field j "stages")).mapM parseFitStage
+  let ds ← (← arr (← field j "reads")).mapM parseDemand
+  let den := fitDen sdApprox stages c
+  let reads := ds.map (fun d => demTake d den)
+  let kept := match stages with
+    | [s] => fitReadsKept sdApprox s c 0 ds
+    | _ => []
+  let pulled := match stages with
+    | s :: _ => ds.map (fun d => fitPulled s.window (ctxsLen c) d)
+    | [] => []
+  pure (obj [("reads", ofList c11CtxsToJson reads), ("kept", ofList c11CtxsToJson kept), ("pulled", ofNatListJson pulled),
+             ("same", Json.bool (match stages with | [s] => (fitReadsFresh sdApprox s c ds).length == ds.length | _ => true))])
+
+/-- {"galias":{"n":N,"stages":["share" | "alloc" | "write" | {"take":k} | {"pick":[i…]}]}}: one read and a second read of N held
+objects (values 100+i) through the general aliasing stages; which delivered objects are held objects (address) and which are new (null) -/
+def handleGAlias (j : Json) : Except String Json := do
+  let n ← nat (← field j "n")
+  let stages ← (← arr (← field j "stages")).mapM (fun e => do
+    match e with
+    | .str "share" => pure (GStage.share : GStage Nat)
+    | .str "alloc" => pure (GStage.alloc (List.map (· * 2 + 1)))
+    | .str "write" => pure (GStage.write (List.map (· * 2 + 1)))
+    | _ => match e.getObjVal? "take" with
+      | .ok k => do let k ← nat k; pure (GStage.pick (fun m => List.range (min k m)))
+      | .error _ => do let idx ← natList (← field e "pick"); pure (GStage.pick (fun _ => idx)))
+  let st : List Nat := (List.range n).map (· + 100)
+  let held := List.range n
+  let r1 := greadOnce 0 stages st held
+  let r2 := greadOnce 0 stages r1.1 held
+  pure (obj [("pattern1", ofList (ofOpt ofNat) (identityPattern n r1.2)),
+             ("pattern2", ofList (ofOpt ofNat) (identityPattern n r2.2)),
+             ("heldUnchanged", Json.bool (r1.1.take n == st && r2.1.take n == st)),
+             ("sameValues", Json.bool (gdeliver 0 r1 == gdeliver 0 r2)),
+             ("noWriter", Json.bool (stages.all (fun s => !s.writesInput)))])
+
 /-- request: {"variant","fin":{table},"attrs":[…],"objs":[{src,nodes,ownFin}…] (or a single "src"/"nodes"/"ownFin"),
 "caller":[[tokens]…],"hist":[…]}; answer: model outputs per operation, per object the denotation and denoted
 params, whether the hypotheses of `reread` hold, and the caller-owned cells after the history -/
 def handle (req : Json) : Except String Json := do
   match req.getObjVal? "alias" with
   | .ok a => handleAlias a
+  | .error _ =>
+  match req.getObjVal? "fit" with
+  | .ok a => handleFit a
+  | .error _ =>
+  match req.getObjVal? "galias" with
+  | .ok a => handleGAlias a
   | .error _ =>
   match req.getObjVal? "memo" with
   | .ok m => handleMemo m
